@@ -199,7 +199,7 @@ def run_sample(desc, M):
     partial = None
     if desc.get("partial"):
         pv = desc["partial"]
-        partial = pd.DataFrame({pv: [C.sname(d, pv, card[pv] - 1)] * size})
+        partial = pd.DataFrame({pv: [card[pv] - 1] * size})  # BayesianModelSampling takes partial samples as state numbers
     if not hasattr(M, "agg"):
         M.agg = {}
         M.cut_mass = Fraction(0)
